@@ -68,6 +68,23 @@ CHECKS = {
                      "every call index. Oracle: main_loop is left only by the harness's stop exception, executed lines "
                      "per iteration stay under a cap, and the session completes (or, where the peer itself misbehaved, "
                      "a fresh negotiation succeeds after the time-outs)."),
+    'C04': dict(level='exploration', technique=EX + " (wire-only observer re-deriving every key)",
+                text="Real two-endpoint exchanges for every PRF x INTEG x AES length x DH group, every CHILD suite with "
+                     "and without PFS, rekey chains, nonce lengths / patterns and DH values with leading zero octets "
+                     "(forced exponents); an observer that sees only the datagrams and the DH exponents re-derives "
+                     "SKEYSEED, SK_*, KEYMAT and compares with IkeSa.ike_sa_keyring and the keys inside XFRM_MSG_NEWSA; "
+                     "prf+ for all output lengths; MODP primes derived from their defining formula; RFC 5903 vectors."),
+    'C11': dict(level='exploration', technique=EX,
+                text="Complete products of local policies x peer proposals (incl. foreign ids, key-length variants, "
+                     "two-proposal payloads) for Proposal.intersection / is_subset / _select_best_sa_proposal against a "
+                     "declarative reference; 512+ real handshakes over all pairs of ENCR/DH preference lists at IKE and "
+                     "CHILD level incl. NO_PROPOSAL_CHOSEN and the INVALID_KE_PAYLOAD round; 190 one-step rewrites of "
+                     "authentic responses by a tampering responder."),
+    'C14': dict(level='exploration', technique=EX + " (decoder compiled against the kernel UAPI headers)",
+                text="Every netlink request the Xfrm API emits over the full product of the selector region and "
+                     "pairwise-complete crosses with the other regions is decoded by a C program using <linux/xfrm.h> "
+                     "and compared field by field with the intent; ACQUIRE / EXPIRE / ack / error frames encoded with "
+                     "the kernel structures are decoded by Xfrm.parse_message / send_recv and compared."),
 }
 
 # filled in as checks are built; anything in ALL but not in CHECKS is listed under not_applicable
